@@ -30,7 +30,7 @@ NT(p) == Len(Th(p))
 MemOps == {"ld", "st", "rmw", "fence"}
 \* main's code is  spawn*; join*; ld*  -- its loads run after every other event
 IsFinal(p, e) == e[1] = 1
-Ev(p) == {e \in (1..NT(p)) \X (1..12) : e[2] <= Len(Th(p)[e[1]]) /\ Th(p)[e[1]][e[2]].op \in MemOps}
+Ev(p) == UNION {{<<t, i>> : i \in {j \in 1..Len(Th(p)[t]) : Th(p)[t][j].op \in MemOps}} : t \in 1..NT(p)}
 Ins(p, e) == Th(p)[e[1]][e[2]]
 LocSeq(p) == LET S == Progs[p].atoms IN CHOOSE s \in [1..Cardinality(S) -> S] : \A i, j \in 1..Cardinality(S) : i # j => s[i] # s[j]
 InitEv(p) == {<<0, k>> : k \in 1..Cardinality(Progs[p].atoms)}
@@ -64,37 +64,43 @@ p == pid
 IsAcq(o) == o \in {"acq", "acqrel", "sc"}
 IsRel(o) == o \in {"rel", "acqrel", "sc"}
 EE == All(p)
-Comp(R, S) == {ac \in EE \X EE : \E b \in EE : <<ac[1], b>> \in R /\ <<b, ac[2]>> \in S}
+\* relational composition and transitive closure, written over relations only (no quantification over the universe)
+CompR(R, S) == UNION {{<<a[1], b[2]>> : b \in {c \in S : c[1] = a[2]}} : a \in R}
 RECURSIVE TCn(_, _)
-TCn(R, n) == IF n = 0 THEN R ELSE LET R2 == R \cup Comp(R, R) IN IF R2 = R THEN R ELSE TCn(R2, n - 1)
+TCn(R, n) == IF n = 0 THEN R ELSE LET R2 == R \cup CompR(R, R) IN IF R2 = R THEN R ELSE TCn(R2, n - 1)
 TC(R) == TCn(R, 6)
 Id(S) == {<<e, e>> : e \in S}
-Irrefl(R) == \A e \in EE : <<e, e>> \notin R
+Irrefl(R) == \A e \in R : e[1] # e[2]
 MoPos(e) == IF IsInit(e) THEN 0 ELSE CHOOSE i \in 1..Len(mo[Loc(p, e)]) : mo[Loc(p, e)][i] = e
 RECURSIVE RsClose(_)
 RsClose(S) == LET S2 == S \cup {u \in Reads(p) : Op(p, u) = "rmw" /\ rf[u] \in S} IN IF S2 = S THEN S ELSE RsClose(S2)
 
 Consistent ==
-  LET sb == {ab \in EE \X EE :
+  LET EEc == All(p)
+      Wc  == Writes(p)
+      Rc  == Reads(p)
+      Fc  == Fences(p)
+      CompC(R, S) == CompR(R, S)
+      sb == {ab \in EEc \X EEc :
                \/ IsInit(ab[1]) /\ ~IsInit(ab[2])
                \/ ~IsInit(ab[1]) /\ ~IsInit(ab[2]) /\ ab[1][1] = ab[2][1] /\ ab[1][2] < ab[2][2]
                \/ ~IsInit(ab[1]) /\ ~IsFinal(p, ab[1]) /\ IsFinal(p, ab[2])}       \* join: everything before main's final loads
-      pos == [e \in Writes(p) |-> MoPos(e)]
-      moR == {ab \in Writes(p) \X Writes(p) : Loc(p, ab[1]) = Loc(p, ab[2]) /\ pos[ab[1]] < pos[ab[2]]}
-      rfR == {<<rf[r], r>> : r \in Reads(p)}
-      rb == {rw \in Reads(p) \X Writes(p) : Loc(p, rw[1]) = Loc(p, rw[2]) /\ rw[1] # rw[2] /\ pos[rf[rw[1]]] < pos[rw[2]]}
+      pos == [e \in Wc |-> MoPos(e)]
+      moR == {ab \in Wc \X Wc : Loc(p, ab[1]) = Loc(p, ab[2]) /\ pos[ab[1]] < pos[ab[2]]}
+      rfR == {<<rf[r], r>> : r \in Rc}
+      rb == {rw \in Rc \X Wc : Loc(p, rw[1]) = Loc(p, rw[2]) /\ rw[1] # rw[2] /\ pos[rf[rw[1]]] < pos[rw[2]]}
       eco == TC(rfR \cup moR \cup rb)
       psb == {ab \in sb : ~IsInit(ab[1]) /\ ab[1][1] = ab[2][1]}            \* program order proper
-      Rs(w0) == RsClose({w0} \cup (IF RelSeqSame THEN {w \in Writes(p) : <<w0, w>> \in psb /\ Loc(p, w) = Loc(p, w0)} ELSE {}))
-      RelSrc(w0) == (IF IsRel(Ord(p, w0)) THEN {w0} ELSE {}) \cup {f \in Fences(p) : IsRel(Ord(p, f)) /\ <<f, w0>> \in psb}
-      AcqTgt(r) == (IF IsAcq(Ord(p, r)) THEN {r} ELSE {}) \cup {f \in Fences(p) : IsAcq(Ord(p, f)) /\ <<r, f>> \in psb}
-      sw == UNION { UNION { UNION { RelSrc(w0) \X AcqTgt(r) : r \in {r \in Reads(p) : rf[r] = w} } : w \in Rs(w0) } : w0 \in Writes(p) \ InitEv(p) }
+      Rs(w0) == RsClose({w0} \cup (IF RelSeqSame THEN {w \in Wc : <<w0, w>> \in psb /\ Loc(p, w) = Loc(p, w0)} ELSE {}))
+      RelSrc(w0) == (IF IsRel(Ord(p, w0)) THEN {w0} ELSE {}) \cup {f \in Fc : IsRel(Ord(p, f)) /\ <<f, w0>> \in psb}
+      AcqTgt(r) == (IF IsAcq(Ord(p, r)) THEN {r} ELSE {}) \cup {f \in Fc : IsAcq(Ord(p, f)) /\ <<r, f>> \in psb}
+      sw == UNION { UNION { UNION { RelSrc(w0) \X AcqTgt(r) : r \in {r \in Rc : rf[r] = w} } : w \in Rs(w0) } : w0 \in Wc \ InitEv(p) }
       hb == TC(sb \cup sw)
       hbq == hb \cup Id(EE)
-      Fsc == {e \in Fences(p) : Ord(p, e) = "sc"}
-      hbecohb == Comp(Comp(hb, eco), hb)
+      Fsc == {e \in Fc : Ord(p, e) = "sc"}
+      hbecohb == CompC(CompC(hb, eco), hb)
       pscF == {e \in hb \cup hbecohb : e[1] \in Fsc /\ e[2] \in Fsc}
-  IN /\ Irrefl(hb) /\ Irrefl(Comp(hb, eco))
+  IN /\ Irrefl(hb) /\ Irrefl(CompC(hb, eco))
      /\ Irrefl(TC(sb \cup rfR))
      /\ Irrefl(TC(pscF))
 
